@@ -107,8 +107,9 @@ macro_rules! bezier_impl_any {
             {
                 let mut length = T::zero();
                 let mut prev_point = self.evaluate(T::zero());
-                for i in 1..(step_count+2) {
-                    let t = <T as From<u16>>::from(i)/(<T as From<u16>>::from(step_count)+T::one());
+                // NOTE: i goes up to step_count+1, which doesn't fit in an u16 when step_count is u16::MAX.
+                for i in 0..=step_count {
+                    let t = (<T as From<u16>>::from(i)+T::one())/(<T as From<u16>>::from(step_count)+T::one());
                     let next_point = self.evaluate(t);
                     length = length + (next_point - prev_point).magnitude();
                     prev_point = next_point;
